@@ -1462,11 +1462,10 @@ func (o intf2impls) intf2impl(rtid uintptr) (rv reflect.Value) {
 }
 
 type structFieldInfoNode struct {
-	offset   uint16
+	offset   uint32 // a field can sit beyond 64K (e.g. after a large array field)
 	index    uint16
 	kind     uint8
 	numderef uint8
-	_        uint16 // padding
 
 	typ reflect.Type
 }
@@ -2387,7 +2386,7 @@ LOOP:
 						parent: path,
 						structFieldInfoNode: structFieldInfoNode{
 							typ:      f.Type,
-							offset:   uint16(f.Offset),
+							offset:   uint32(f.Offset),
 							index:    j,
 							kind:     uint8(fkind),
 							numderef: numderef,
@@ -2431,7 +2430,7 @@ LOOP:
 		// 	parent: path,
 		// 	structFieldInfoNode: structFieldInfoNode{
 		// 		typ:      f.Type,
-		// 		offset:   uint16(f.Offset),
+		// 		offset:   uint32(f.Offset),
 		// 		index:    j,
 		// 		kind:     uint8(fkind),
 		// 		numderef: numderef,
@@ -2440,7 +2439,7 @@ LOOP:
 
 		si.node = structFieldInfoNode{
 			typ:      f.Type,
-			offset:   uint16(f.Offset),
+			offset:   uint32(f.Offset),
 			index:    j,
 			kind:     uint8(fkind),
 			numderef: numderef,
